@@ -38,6 +38,33 @@ pub enum OpKind {
     HSet,
     HGet,
     HDel,
+    /// set / sorted-set / list keys derived from the key (same slot) that hold at most the member "m":
+    /// every remaining command family of `requires_blocking_migration` gets exercised
+    SAdd,
+    SRem,
+    SPop,
+    SCard,
+    ZAdd,
+    ZRem,
+    ZPopMin,
+    ZPopMax,
+    ZRemRangeByRank,
+    ZRemRangeByScore,
+    ZRemRangeByLex,
+    ZCard,
+    /// list holding at most one element: RPUSH only if absent is not expressible, so the list key is
+    /// (re)created by `LPush1` = LTRIM to empty followed by nothing; see below
+    LRem,
+    LTrimEmpty,
+    LPop,
+    RPop,
+    LLen,
+    /// EXPIREAT / PEXPIREAT with a time in the past deletes the key
+    ExpireAtPast,
+    PexpireAtPast,
+    /// EVAL scripts: delete / read KEYS[1]
+    EvalDel,
+    EvalGet,
 }
 
 #[derive(Debug, Clone, Serialize, Deserialize)]
@@ -93,6 +120,27 @@ fn op_strategy() -> impl Strategy<Value = COp> {
             2 => Just(OpKind::HSet),
             2 => Just(OpKind::HGet),
             2 => Just(OpKind::HDel),
+            2 => Just(OpKind::SAdd),
+            1 => Just(OpKind::SRem),
+            1 => Just(OpKind::SPop),
+            1 => Just(OpKind::SCard),
+            2 => Just(OpKind::ZAdd),
+            1 => Just(OpKind::ZRem),
+            1 => Just(OpKind::ZPopMin),
+            1 => Just(OpKind::ZPopMax),
+            1 => Just(OpKind::ZRemRangeByRank),
+            1 => Just(OpKind::ZRemRangeByScore),
+            1 => Just(OpKind::ZRemRangeByLex),
+            1 => Just(OpKind::ZCard),
+            1 => Just(OpKind::LRem),
+            1 => Just(OpKind::LTrimEmpty),
+            1 => Just(OpKind::LPop),
+            1 => Just(OpKind::RPop),
+            1 => Just(OpKind::LLen),
+            1 => Just(OpKind::ExpireAtPast),
+            1 => Just(OpKind::PexpireAtPast),
+            1 => Just(OpKind::EvalDel),
+            1 => Just(OpKind::EvalGet),
         ],
         0u8..3,
         prop_oneof![3 => 0u32..2000, 2 => 0u32..20000, 1 => 0u32..200000],
@@ -164,6 +212,18 @@ fn counter_of(k: &[u8]) -> Vec<u8> {
     v
 }
 
+/// same-slot keys for the one-member set ('5'), sorted set ('6') and list ('7') derived from a key
+fn coll_of(k: &[u8], kind: &[u8]) -> Vec<u8> {
+    let mut v = k.to_vec();
+    v.pop();
+    v.push(match kind {
+        b"set" => b'5',
+        b"zset" => b'6',
+        _ => b'7',
+    });
+    v
+}
+
 fn hash_of(k: &[u8]) -> Vec<u8> {
     let mut v = k.to_vec();
     v.pop();
@@ -189,7 +249,15 @@ fn to_ret(kind_call: &Call, r: &RespVec) -> Ret {
         (_, Resp::Error(_)) => Ret::Unknown,
         (Call::Get | Call::HGet | Call::GetSet(_), Resp::Bulk(BulkStr::Nil)) => Ret::Val(None),
         (Call::Get | Call::HGet | Call::GetSet(_), Resp::Bulk(BulkStr::Str(s))) => Ret::Val(Some(s.clone())),
-        (Call::Set(_), Resp::Simple(_)) => Ret::Ok,
+        (Call::Set(_) | Call::ClearOk, Resp::Simple(_)) => Ret::Ok,
+        (Call::PopMember, Resp::Bulk(BulkStr::Nil)) => Ret::Val(None),
+        (Call::PopMember, Resp::Bulk(BulkStr::Str(s))) => Ret::Val(Some(s.clone())),
+        (Call::PopMember, Resp::Arr(Array::Arr(items))) => match items.first() {
+            None => Ret::Val(None),
+            Some(Resp::Bulk(BulkStr::Str(m))) => Ret::Val(Some(m.clone())),
+            Some(_) => Ret::Unknown,
+        },
+        (Call::PopMember, Resp::Arr(Array::Nil)) => Ret::Val(None),
         (_, Resp::Integer(i)) => std::str::from_utf8(i).ok().and_then(|s| s.parse::<i64>().ok()).map(Ret::Int).unwrap_or(Ret::Unknown),
         _ => Ret::Unknown,
     }
@@ -224,6 +292,22 @@ pub async fn run_world(case: &DCase, ttl_of: &dyn Fn(u8) -> Option<Duration>, in
                 initial_values.insert(kk, Some(v));
             } else {
                 initial_values.insert(kk, None);
+            }
+        }
+        // the one-member collections derived from the key (C03 programs only; C19 leaves them absent)
+        for (j, kind) in [&b"set"[..], &b"zset"[..], &b"list"[..]].into_iter().enumerate() {
+            let kx = coll_of(&k, kind);
+            let present = ttl_of(i).is_none() && case.init[(i as usize * 3 + j + 1) % case.init.len()];
+            if present {
+                let val = match j {
+                    0 => Val::Set([b"m".to_vec()].into_iter().collect()),
+                    1 => Val::ZSet([(b"m".to_vec(), 1i64)].into_iter().collect()),
+                    _ => Val::List([b"m".to_vec()].into_iter().collect()),
+                };
+                mig.src_redis.store.lock().insert(kx.clone(), Entry { val, expire_at: None });
+                initial_values.insert(kx, Some(b"m".to_vec()));
+            } else {
+                initial_values.insert(kx, None);
             }
         }
     }
@@ -277,6 +361,80 @@ pub async fn run_world(case: &DCase, ttl_of: &dyn Fn(u8) -> Option<Duration>, in
                         let kh = hash_of(&k);
                         (cmdb(&[b"HDEL", &kh, b"f"]), vec![(kh, Call::HDel)])
                     }
+                    OpKind::SAdd => {
+                        let kx = coll_of(&k, b"set");
+                        (cmdb(&[b"SADD", &kx, b"m"]), vec![(kx, Call::AddMember)])
+                    }
+                    OpKind::SRem => {
+                        let kx = coll_of(&k, b"set");
+                        (cmdb(&[b"SREM", &kx, b"m"]), vec![(kx, Call::RemoveCount)])
+                    }
+                    OpKind::SPop => {
+                        let kx = coll_of(&k, b"set");
+                        (cmdb(&[b"SPOP", &kx]), vec![(kx, Call::PopMember)])
+                    }
+                    OpKind::SCard => {
+                        let kx = coll_of(&k, b"set");
+                        (cmdb(&[b"SCARD", &kx]), vec![(kx, Call::Card)])
+                    }
+                    OpKind::ZAdd => {
+                        let kx = coll_of(&k, b"zset");
+                        (cmdb(&[b"ZADD", &kx, b"1", b"m"]), vec![(kx, Call::AddMember)])
+                    }
+                    OpKind::ZRem => {
+                        let kx = coll_of(&k, b"zset");
+                        (cmdb(&[b"ZREM", &kx, b"m"]), vec![(kx, Call::RemoveCount)])
+                    }
+                    OpKind::ZPopMin => {
+                        let kx = coll_of(&k, b"zset");
+                        (cmdb(&[b"ZPOPMIN", &kx]), vec![(kx, Call::PopMember)])
+                    }
+                    OpKind::ZPopMax => {
+                        let kx = coll_of(&k, b"zset");
+                        (cmdb(&[b"ZPOPMAX", &kx]), vec![(kx, Call::PopMember)])
+                    }
+                    OpKind::ZRemRangeByRank => {
+                        let kx = coll_of(&k, b"zset");
+                        (cmdb(&[b"ZREMRANGEBYRANK", &kx, b"0", b"-1"]), vec![(kx, Call::RemoveCount)])
+                    }
+                    OpKind::ZRemRangeByScore => {
+                        let kx = coll_of(&k, b"zset");
+                        (cmdb(&[b"ZREMRANGEBYSCORE", &kx, b"-inf", b"+inf"]), vec![(kx, Call::RemoveCount)])
+                    }
+                    OpKind::ZRemRangeByLex => {
+                        let kx = coll_of(&k, b"zset");
+                        (cmdb(&[b"ZREMRANGEBYLEX", &kx, b"-", b"+"]), vec![(kx, Call::RemoveCount)])
+                    }
+                    OpKind::ZCard => {
+                        let kx = coll_of(&k, b"zset");
+                        (cmdb(&[b"ZCARD", &kx]), vec![(kx, Call::Card)])
+                    }
+                    // the list key is pre-populated with the single element "m" (see the initial state);
+                    // it is never pushed to, so it holds at most one element
+                    OpKind::LRem => {
+                        let kx = coll_of(&k, b"list");
+                        (cmdb(&[b"LREM", &kx, b"0", b"m"]), vec![(kx, Call::RemoveCount)])
+                    }
+                    OpKind::LTrimEmpty => {
+                        let kx = coll_of(&k, b"list");
+                        (cmdb(&[b"LTRIM", &kx, b"1", b"0"]), vec![(kx, Call::ClearOk)])
+                    }
+                    OpKind::LPop => {
+                        let kx = coll_of(&k, b"list");
+                        (cmdb(&[b"LPOP", &kx]), vec![(kx, Call::PopMember)])
+                    }
+                    OpKind::RPop => {
+                        let kx = coll_of(&k, b"list");
+                        (cmdb(&[b"RPOP", &kx]), vec![(kx, Call::PopMember)])
+                    }
+                    OpKind::LLen => {
+                        let kx = coll_of(&k, b"list");
+                        (cmdb(&[b"LLEN", &kx]), vec![(kx, Call::Card)])
+                    }
+                    OpKind::ExpireAtPast => (cmdb(&[b"EXPIREAT", &k, b"1"]), vec![(k.clone(), Call::Del)]),
+                    OpKind::PexpireAtPast => (cmdb(&[b"PEXPIREAT", &k, b"1000"]), vec![(k.clone(), Call::Del)]),
+                    OpKind::EvalDel => (cmdb(&[b"EVAL", b"return redis.call('del',KEYS[1])", b"1", &k]), vec![(k.clone(), Call::Del)]),
+                    OpKind::EvalGet => (cmdb(&[b"EVAL", b"return redis.call('get',KEYS[1])", b"1", &k]), vec![(k.clone(), Call::Get)]),
                     OpKind::Mget => (cmdb(&[b"MGET", &k, &k2]), vec![(k.clone(), Call::Get), (k2.clone(), Call::Get)]),
                     OpKind::Mset => {
                         let u2 = [uniq.clone(), b"b".to_vec()].concat();
@@ -413,6 +571,9 @@ async fn run(case: &DCase, obs: &mut Obs) -> Result<(), Fail> {
             match v {
                 Some(Val::Str(s)) => Some(s.clone()),
                 Some(Val::Hash(h)) => h.get(&b"f"[..]).cloned().or(Some(b"<hash without field f>".to_vec())),
+                Some(Val::Set(m)) if m.len() == 1 => m.iter().next().cloned(),
+                Some(Val::ZSet(z)) if z.len() == 1 => z.keys().next().cloned(),
+                Some(Val::List(l)) if l.len() == 1 => l.front().cloned(),
                 Some(_) => Some(b"<non-string>".to_vec()),
                 None => None,
             }
@@ -458,6 +619,9 @@ async fn run(case: &DCase, obs: &mut Obs) -> Result<(), Fail> {
         ensure!(other.is_none(), "C03:key-on-wrong-node-after-commit", "untouched key {:?} exists on the wrong node after commit", String::from_utf8_lossy(k));
         let got = home.map(|e| match e.val {
             Val::Str(s) => s,
+            Val::Set(m) if m.len() == 1 => m.into_iter().next().unwrap_or_default(),
+            Val::ZSet(z) if z.len() == 1 => z.into_keys().next().unwrap_or_default(),
+            Val::List(l) if l.len() == 1 => l.into_iter().next().unwrap_or_default(),
             _ => b"<non-string>".to_vec(),
         });
         ensure!(
